@@ -689,7 +689,13 @@ def check_exact_distribution(ctx):
     ctx.analysed(pre)
     stores = [n for n in body_walk(pre.node) if isinstance(n, ast.Assign) and isinstance(n.targets[0], ast.Subscript) and isinstance(n.targets[0].slice, ast.Call)]
     ok = bool(stores) and all(count_reversals(s.targets[0].slice) == 0 for s in stores)
-    ctx.check(ok, R3, pre.key, "string keys become tuples character by character", "string keys of a distribution are re-ordered when they are turned into tuples", pre)
+    convs = [c for c in body_walk(pre.node) if isinstance(c, ast.Call) and dotted(c.func) == "tuple" and c.args]
+    if not stores and convs and count_reversals(pre.node) == 0 and not any(isinstance(c, ast.Call) and (dotted(c.func) or "").split(".")[-1] in ("sorted", "reversed") for c in body_walk(pre.node)):
+        ok = True  # the tuple is built first and stored under a local name: nothing in the function reverses or sorts
+    if not stores and not convs:
+        ctx.undecided(R3, pre.key, "cannot find where a string key is turned into a tuple", pre)
+    else:
+      ctx.check(ok, R3, pre.key, "string keys become tuples character by character", "string keys of a distribution are re-ordered when they are turned into tuples", pre)
     gd = repo.func(f"{MS}:Measurements.get_distribution")
     ctx.analysed(gd)
     ctx.check(count_reversals(gd.node) == 0 and "self.get_counts()" in norm(gd.node), R3, gd.key, "empirical distribution is keyed by the count strings themselves", "get_distribution re-orders the count strings", gd)
